@@ -421,3 +421,11 @@ def r20(rr, repo):
                 rr.unresolved('the reset of the expected id at CLOSE is conditional in a way this rule does not know', za.mod, s, witness=str(other)[:140], key='close-reset-unconditional')
             else:
                 rr.ob('the reset does not depend on what the listener holds of the closing source (a half set or none)', True, za.mod, s, witness=f'guards inside the CLOSE branch: {g}', key='close-reset-unconditional')
+
+
+@rule('C06.R21', "a source that went silent is not trusted with an old set: when one source delivers a newer id, the sets the OTHER synchronized sources hold are dropped whatever the receiver thinks "
+                 "of their connection - a source marked 'not connected' because its request queue filled up was not cleaned up by anything, and its stale complete set would be joined with the "
+                 "newer one once the restarted source is heard again (shares C01.R2)")
+def r21(rr, repo):
+    from .c01 import r2 as c01r2
+    c01r2(rr, repo)
